@@ -43,6 +43,15 @@ func c09S1Worker(env *fw.Env) {
 				c09WedgedHSMS(env, c09S1Case{Index: i, Handler: "blocks (hsmsss)", End: end, Role: role})
 			}
 		}
+		// a waiter on a generation that Close ends while the socket accepts no write (c09_farewell.go)
+		for _, wt := range []int{10_000, 30_000} {
+			i := k
+			k++
+			if !env.Mine(i) || !env.Want(i) {
+				continue
+			}
+			c09BlockedFarewell(env, c09FarewellCase{Index: i, Active: (i+int64(rep))%2 == 0, WriteTimeoutMs: wt})
+		}
 		// fire-and-forget senders parked on a full send queue (c09_async.go)
 		for _, end := range []string{"close", "peer-reset"} {
 			for _, recvPark := range []bool{true, false} {
